@@ -272,13 +272,16 @@ fn main() {
     // ---- (B)
     let walkers = walkers(&world.maps);
     let n_steps = ctx.pick(4usize, 5);
+    for busy in [false, true] {
     for (wi, (wname, mk)) in walkers.iter().enumerate() {
         let reference: Vec<String> = {
             let mut w = mk();
             (0..n_steps).map(|_| w.step()).collect()
         };
         let seqs = all_sequences(3, n_steps + 1); // + the thread that drops it
-        let name = format!("B-handover/{wname}/3^{}", n_steps + 1);
+        // busy = every thread also owns a private taiko calculator on another map which it advances by one step each time
+        // it gets the baton, before touching the shared one (per-thread state keyed by position would show here)
+        let name = format!("B-handover{}/{wname}/3^{}", if busy { "-busy-threads" } else { "" }, n_steps + 1);
         let _ = wi;
         ctx.universe_isolated(&name, seqs.len() as u64, 20.0, 2048, |idx, l: &mut Local<'_>| {
             let seq = &seqs[idx as usize];
@@ -296,7 +299,11 @@ fn main() {
             // step 0 is executed by seq[0] which also creates the calculator; the last entry only drops it
             let slot: Mutex<Option<Box<dyn Walk>>> = Mutex::new(None);
             let done = std::sync::atomic::AtomicUsize::new(0);
-            let r = baton::run_schedule(3, seq, |_tid, _| {
+            let private_map = if wname.contains("convert") { &world.maps[1] } else { &world.maps[0] };
+            let r = baton::run_schedule_with(3, seq, |_| if busy { rosu_pp::taiko::TaikoGradualDifficulty::new(Difficulty::new(), private_map).ok() } else { None }, |_tid, _, private| {
+                if let Some(p) = private.as_mut() {
+                    let _ = p.next();
+                }
                 let mut s = slot.lock().unwrap();
                 let k = done.fetch_add(1, std::sync::atomic::Ordering::SeqCst);
                 if k == n_steps {
@@ -329,6 +336,7 @@ fn main() {
             }
             drop(slot);
         });
+    }
     }
 
     // ---- (C) free-running, sampling
